@@ -301,6 +301,7 @@ class Ctx:
         self.inline_depth = 0
         self.dead = False
         self.pure_depth = 0
+        self.loop_entry = {}
 
     # -- symbols
     def fresh(self, name, sort=None):
@@ -570,6 +571,10 @@ class Interp:
             ctx.frame.vars[d["id"]] = loc
         else:
             # object with identity (guards, containers, views)
+            try:
+                v.decl_name = name
+            except AttributeError:
+                pass
             ctx.frame.vars[d["id"]] = v
             if hasattr(v, "destroy"):
                 ctx.frame.scopes[-1].append(v)
@@ -662,6 +667,7 @@ class Interp:
         if spec.unroll is not None:
             return self._loop_unrolled(n, cond, inc, body, spec, tag)
         # 1. invariant holds on entry
+        ctx.loop_entry[ordinal] = dict(ctx.store)
         for nm, cl in spec.inv(self, ctx):
             ctx.oblige("%s.init.%s" % (tag, nm), cl, kind="inv-init", line=extract.line_of(n))
         # 2. havoc what the loop may modify
